@@ -159,7 +159,7 @@ def _run_case(spec, ctx):
             dec = np.array([A[0, 0], A[1, 1], A[2, 2], np.trace(A)])
             ctx.cls(f"spurrier:branch{int(np.argmax(dec))}")
             ctx.cls(f"spurrier:{cls}")
-            q = R.Spurrier(A)
+            q = np.asarray(R.Spurrier(A), dtype=float)      # (judged as the real quaternion it stands for, whatever its dtype)
             ctx.mon("spurrier")
             if abs(np.linalg.norm(q) - 1) > 1e-12:
                 ctx.violation("Spurrier", "extracted quaternion is not a unit quaternion", {"A": A, "class": cls, "q": q, "norm": np.linalg.norm(q)})
